@@ -43,7 +43,8 @@ def setup(obs):
 QKINDS = ['bbox', 'boundary', 'boundary', 'far', 'lattice', 'mixed']
 FORMS = [('scalar', None), ('empty', (0,)), ('empty', (0, 3)), ('empty', (2, 0, 4)), ('empty', (3, 0)), ('1d', None), ('1d', None), ('2d', None), ('3d', (2, 1, 3)),
          ('2d-transposed', None), ('2d-fortran', None), ('1d-strided', None), ('2d-sliced', None), ('1d-reversed', None),
-         ('one-element', (1,)), ('one-element', (1, 1)), ('one-element', (1, 1, 1)), ('broadcast', None), ('readonly', None), ('masked', None)]
+         ('one-element', (1,)), ('one-element', (1, 1)), ('one-element', (1, 1, 1)), ('broadcast', None), ('readonly', None), ('masked', None),
+         ('open-grid', None), ('open-grid', None)]
 DTYPES = ['float64', 'float64', 'float64', 'float32', 'int64', 'int32']
 
 
@@ -209,6 +210,11 @@ def make_queries(region, q):
         if form == '2d-fortran':
             return regions.PixCoord(np.asfortranarray(X), np.asfortranarray(Y))
         return regions.PixCoord(X[:, ::2], Y[:, ::2])
+    if form == 'open-grid':
+        # np.ogrid-style: a row of x values against a column of y values (same ndim, shapes (1, nx) and (ny, 1)) - a grid query
+        k = max(1, min(len(x), 12))
+        m = max(1, min(len(y), 7))
+        return regions.PixCoord(x[:k].reshape(1, k), y[:m].reshape(m, 1))
     if form == 'broadcast':
         return regions.PixCoord(x, y[0].item())                 # y is a scalar: PixCoord holds a read-only broadcast view
     if form == 'readonly':
